@@ -135,6 +135,7 @@ def build_cases(shape_name, fmt, relax, api, isread, tuples, per_case=120, np=1)
                 lp = c.op(who, 'get' if isread else 'put', form=form, **kw); lw = None
             if np > 1: c.op('*', 'barrier')
             ls = c.op(0, 'snap', path='a.nc')
+            if np > 1: c.op('*', 'barrier')       # the other processes may not start the next write while the file is being read
             ctx.append((st, ct, sd, lp, lw, ls, (k % 80) + 1))
         c.op('*', 'close', f=0)
         cases.append((c, ctx, s0, shape, isrec))
@@ -182,7 +183,9 @@ def judge(ck, c, ctx, s0, shape, isrec, r, api, isread, relax):
             n = max(len(cur), len(prev))
             a = prev + b'\0' * (n - len(prev)); b_ = cur + b'\0' * (n - len(cur))
             diff = [i for i in range(n) if a[i] != b_[i]]
-            bad = [i for i in diff if i not in allowed]
+            # bytes the file did not have before this call and that the call does not address lie in records that are only now
+            # created: their content is undefined (no fill), and the MPI-IO layer may write anything into such holes
+            bad = [i for i in diff if i not in allowed and i < len(prev)]
             if bad:
                 ck.violation(('write_outside_target', 'put ' + api, 'accepted request'), text, '%s: %s changed bytes %s outside the addressed elements' % (c.name, desc, bad[:12])); return
             vals = [D.gen(tag, k, 100) for k in range(len(idx))]
@@ -279,7 +282,7 @@ def judge_pairs(ck, c, ctx, s0, shape, isrec, r, api):
             off = cdf.var_element_offset(fcur, 1, i); allowed |= set(range(off, off + 4))
         n = max(len(cur), len(prev))
         a = prev + b'\0' * (n - len(prev)); b_ = cur + b'\0' * (n - len(cur))
-        bad = [i for i in range(n) if a[i] != b_[i] and i not in allowed]
+        bad = [i for i in range(n) if a[i] != b_[i] and i not in allowed and i < len(prev)]
         if bad:
             ck.violation(('write_outside_target', 'pair ' + api, 'overlap' if set(ia) & set(ib) else 'disjoint'), text, '%s: %s changed bytes %s outside the union of the two targets' % (c.name, desc, bad[:12])); return
         got = fcur.data.get(1) or []
@@ -353,7 +356,7 @@ def main(tier=None):
                       'may change only the bytes of the addressed elements (+ the numrecs field) which must then hold the new values; the blocking forms again with the tuple passed by one process of a 2-3 process collective call while the others pass valid requests; every ordered pair of in-range boxes of a (6), (3,4) and (U,3) variable posted as two iput/bput requests completed by one wait_all '
                       'or as the two segments of one put_varn / iput_varn (disjoint, adjacent, partially overlapping, nested): only bytes of the union may change, elements of one box hold its value, elements of both hold either')
     ck.sample(allc[0][0][0].text()[:1500])
-    ck.assumptions += ['where no document orders two applicable codes (NC_ENEGATIVECNT vs NC_EEDGE / NC_ESTRIDE) either is accepted', 'larger shapes and derived buffer types for out-of-range requests are outside the bound (the property\'s random clause is not done)']
+    ck.assumptions += ['bytes beyond the previous end of file that a record-appending write does not address are undefined content and not compared', 'where no document orders two applicable codes (NC_ENEGATIVECNT vs NC_EEDGE / NC_ESTRIDE) either is accepted', 'larger shapes and derived buffer types for out-of-range requests are outside the bound (the property\'s random clause is not done)']
     runner.cleanup()
     return ck.finish(min_eval=1000, min_outcomes=8)
 
